@@ -201,6 +201,7 @@ cLUMemInit(fact_t fact, void *work, int_t lwork, int m, int n, int_t annz,
     singlecomplex   *ucol;
     int_t    *usub, *xusub;
     int_t    nzlmax, nzumax, nzlumax;
+    int_t    top1_factors = 0; /* stack top before the four factor arrays */
     
     iword     = sizeof(int);
     dword     = sizeof(singlecomplex);
@@ -243,6 +244,7 @@ cLUMemInit(fact_t fact, void *work, int_t lwork, int m, int n, int_t annz,
 	    xlusup = cuser_malloc((n+1) * iword, HEAD, Glu);
 	    xusub  = cuser_malloc((n+1) * iword, HEAD, Glu);
 	}
+	if ( Glu->MemModel == USER ) top1_factors = Glu->stack.top1;
 
 	lusup = (singlecomplex *) cexpand( &nzlumax, LUSUP, 0, 0, Glu );
 	ucol  = (singlecomplex *) cexpand( &nzumax, UCOL, 0, 0, Glu );
@@ -256,8 +258,9 @@ cLUMemInit(fact_t fact, void *work, int_t lwork, int m, int n, int_t annz,
 		SUPERLU_FREE(lsub); 
 		SUPERLU_FREE(usub);
 	    } else {
-		cuser_free((nzlumax+nzumax)*dword+(nzlmax+nzumax)*iword,
-                            HEAD, Glu);
+		/* Give back what the four requests actually obtained; some
+		   of them may have failed and taken nothing. */
+		cuser_free(Glu->stack.top1 - top1_factors, HEAD, Glu);
 	    }
 	    nzlumax /= 2;
 	    nzumax /= 2;
